@@ -2,6 +2,8 @@ package props
 
 import (
 	"encoding/json"
+	"fmt"
+	"strings"
 
 	"verif/harness/fw"
 	"verif/harness/obs"
@@ -61,4 +63,32 @@ func c10HasValueProbe(r *fw.Rec, c [2]string) {
 		return
 	}
 	r.Held()
+}
+
+// c10Definedness: whatever the program E is, "E denotes a value" has one
+// answer: Eval(E) returns a value exactly when $exists((E)) is true, reports
+// ErrUndefined exactly when it is false, and fails exactly when it fails.
+func c10Definedness(r *fw.Rec, prog string, in interface{}, o obs.Outcome) bool {
+	e2, _ := obs.Compile("$exists((" + prog + "\n))")
+	if e2 == nil {
+		r.Count("definedness_wrapper_does_not_compile", 1)
+		return false
+	}
+	r.Evals(1)
+	o2 := obs.Eval(e2, in)
+	r.Count("definedness_compared", 1)
+	if o2.Kind == "panic" {
+		r.Count("eval_panics_(C09)", 1)
+		return false
+	}
+	want := map[string]string{"value": "value true", "undefined": "value false", "error": "error"}[o.Kind]
+	got := o2.Kind
+	if o2.Kind == "value" {
+		got = "value " + obs.Show(o2.Val)
+	}
+	if got != want {
+		r.Violation("definedness:"+o.Kind+"-but-exists-is-"+strings.ReplaceAll(got, " ", "-"), fmt.Sprintf("Eval of the program gives %s, but $exists((program)) gives %s", o.String(), o2.String()), nil)
+		return true
+	}
+	return false
 }
